@@ -25,6 +25,7 @@ import (
 	"fmt"
 	"math/rand/v2"
 	"os"
+	"reflect"
 	"sort"
 	"strings"
 	"sync"
@@ -439,15 +440,27 @@ func run(b *harness.B) {
 				dst := e.New()
 				var e1, e2 error
 				var re []byte
+				var moved string
 				if p := safely(func() {
 					e1 = e.DecodeInto(dst, prevEnc)
+					// every other time the earlier value's elements are views of memory owned elsewhere (Share()):
+					// what the decoder puts in their place is the decoder's own memory again
+					if i%2 == 1 {
+						markShared(reflect.ValueOf(dst))
+					}
 					e2 = e.DecodeInto(dst, enc)
 					re = e.Encode(dst)
+					if e1 == nil && e2 == nil {
+						moved = moveAll(reflect.ValueOf(dst))
+					}
 				}); p != "" {
 					b.Violate("C11/panic/decode-into-used-value/"+e.Name, "decoding into a value that holds an earlier message panicked: "+p, witness{Entry: e.Name, Encoding: hexCap(enc, 4096), Other: hexCap(prevEnc, 4096)})
 				} else if e1 == nil && e2 == nil {
 					b.Eval(1)
 					b.Count("decodes_into_a_used_value", 1)
+					if moved != "" {
+						b.Violate("C11/roundtrip/decode-into-used-value/element-still-marked-shared/"+e.Name, "after decoding into a variable whose elements were shared views, a decoded element still refuses Move() (\""+moved+"\"): the decoder's own memory is treated as someone else's", witness{Entry: e.Name, Encoding: hexCap(enc, 4096), Other: hexCap(prevEnc, 4096)})
+					}
 					if !bytes.Equal(re, enc) {
 						b.Violate("C11/roundtrip/decode-into-used-value/"+e.Name, fmt.Sprintf("decoding encode(B) into a variable that held A gives a value that re-encodes differently from B (at byte %d; %d vs %d bytes): fields of A survive", firstDiff(enc, re), len(re), len(enc)), witness{Entry: e.Name, Encoding: hexCap(enc, 4096), Other: hexCap(prevEnc, 4096)})
 					}
@@ -517,4 +530,58 @@ func main() {
 			cov["trust_base"] = "layout tables in cmd/c11/layout.go + golden addresses of types/policy_test.go"
 		},
 	})
+}
+
+var stateElementType = reflect.TypeOf(types.StateElement{})
+
+// markShared replaces every addressable types.StateElement reachable from v by its Share()d view.
+func markShared(v reflect.Value) {
+	walkStateElements(v, func(se *types.StateElement) { *se = se.Share() })
+}
+
+// moveAll calls Move() on every StateElement reachable from v and returns the first panic message ("" if none).
+func moveAll(v reflect.Value) (msg string) {
+	walkStateElements(v, func(se *types.StateElement) {
+		if msg != "" {
+			return
+		}
+		func() {
+			defer func() {
+				if r := recover(); r != nil {
+					msg = fmt.Sprint(r)
+				}
+			}()
+			cp := *se
+			_ = cp.Move()
+		}()
+	})
+	return
+}
+
+func walkStateElements(v reflect.Value, f func(*types.StateElement)) {
+	switch v.Kind() {
+	case reflect.Ptr, reflect.Interface:
+		if !v.IsNil() {
+			walkStateElements(v.Elem(), f)
+		}
+	case reflect.Struct:
+		if v.Type() == stateElementType {
+			if v.CanAddr() && v.Addr().CanInterface() {
+				f(v.Addr().Interface().(*types.StateElement))
+			}
+			return
+		}
+		for i := 0; i < v.NumField(); i++ {
+			if v.Type().Field(i).PkgPath == "" {
+				walkStateElements(v.Field(i), f)
+			}
+		}
+	case reflect.Slice, reflect.Array:
+		if v.Type().Elem().Kind() == reflect.Uint8 {
+			return
+		}
+		for i := 0; i < v.Len(); i++ {
+			walkStateElements(v.Index(i), f)
+		}
+	}
 }
